@@ -24,10 +24,10 @@ Proof. intros Hu W H. apply (run_inv_tinv g Hu tr init s W Inv_init (Tinv_init g
 (* ---- bounds ------------------------------------------------------------------------------------------ *)
 
 Lemma awaiting_live p : awaiting p = true -> live p = true.
-Proof. destruct p as [| | | | |[|]| |]; simpl; congruence. Qed.
+Proof. destruct p as [| | | | |[|]| | |]; simpl; congruence. Qed.
 
 Lemma connecting_awaiting p : connecting p = true -> awaiting p = true.
-Proof. destruct p as [| | | | |[|]| |]; simpl; congruence. Qed.
+Proof. destruct p as [| | | | |[|]| | |]; simpl; congruence. Qed.
 
 Lemma bound_total g tr s t T :
   0 < u g -> Forall wf_event tr -> run g init tr = Some s ->
@@ -142,9 +142,9 @@ Lemma dead_no_timers g nw ts : tinv g nw ts -> live (pcs ts) = false -> tm ts = 
 Proof.
   intros T L. pose proof (t_total_only _ _ _ T L) as A. pose proof (t_conn _ _ _ T) as B.
   pose proof (t_sock _ _ _ T) as C.
-  assert (Hc : has_conn (pcs ts) = false) by (destruct (pcs ts) as [| | | | |[|]| |]; simpl in *; congruence).
+  assert (Hc : has_conn (pcs ts) = false) by (destruct (pcs ts) as [| | | | |[|]| | |]; simpl in *; congruence).
   pose proof (t_read_only _ _ _ T Hc) as D'.
-  assert (Cn : connecting (pcs ts) = false) by (destruct (pcs ts) as [| | | | |[|]| |]; simpl in *; congruence).
+  assert (Cn : connecting (pcs ts) = false) by (destruct (pcs ts) as [| | | | |[|]| | |]; simpl in *; congruence).
   rewrite Cn in B. assert (C' : d_sock (tm ts) = None) by (destruct (pcs ts); simpl in *; congruence).
   destruct (tm ts); simpl in *. unfold no_timers. congruence.
 Qed.
